@@ -3,6 +3,7 @@ package harness
 import (
 	"context"
 	"encoding/binary"
+	"encoding/hex"
 	"fmt"
 	"strings"
 	"testing"
@@ -51,7 +52,7 @@ func (*watchEng) NonTrivial(c Case, out []string) bool {
 			recvd++
 		}
 
-		if strings.Contains(o, "errored") || strings.Contains(o, "invalidBookmark") || (op == "wstart" && strings.Contains(c.Ops[i], "bmlen=") && o == "ok") {
+		if strings.Contains(o, "errored") || strings.Contains(o, "invalidBookmark") || (op == "wstart" && strings.Contains(c.Ops[i], " bm=") && o == "ok") {
 			special = true
 		}
 	}
@@ -172,16 +173,22 @@ func (e *watchEng) Gen(r *Rand, thorough bool, idx int) Case {
 					pos = written[typ] + r.Intn(2)
 				}
 
-				bmlen, cookie := 16, 1
-				if r.Chance(1, 8) {
-					bmlen = Pick(r, []int{0, 8, 15, 17})
+				bm := append([]byte("COOKIE!!"), binary.BigEndian.AppendUint64(nil, uint64(int64(pos)))...)
+
+				switch r.Intn(16) {
+				case 0:
+					bm = bm[:Pick(r, []int{0, 8, 15})]
+				case 1:
+					bm = append(bm, 0)
+				case 2:
+					bm[r.Intn(8)] ^= byte(1 + r.Intn(255)) // foreign cookie
+				case 3:
+					for j := range bm[8:] {
+						bm[8+j] = byte(r.Next()) // arbitrary position bytes
+					}
 				}
 
-				if r.Chance(1, 8) {
-					cookie = 0
-				}
-
-				op += fmt.Sprintf(" bmlen=%d cookie=%d pos=%d", bmlen, cookie, pos)
+				op += fmt.Sprintf(" bm=%x", bm)
 			}
 
 			op += fmt.Sprintf(" buf=%d", Pick(r, []int{0, 0, 1, 2}))
@@ -234,21 +241,18 @@ func cookie(t *testing.T) []byte {
 	return processCookie
 }
 
-// BmStr decodes a bookmark to its position (cookie stripped).
+// BmStr prints bookmark bytes with this process' cookie replaced by the placeholder.
 func BmStr(b state.Bookmark) string {
 	if b == nil {
 		return "-"
 	}
 
-	if len(b) != 16 {
-		return fmt.Sprintf("len%d", len(b))
+	c := append([]byte{}, b...)
+	if len(c) >= 8 && processCookie != nil && string(c[:8]) == string(processCookie) {
+		copy(c, "COOKIE!!")
 	}
 
-	if processCookie != nil && string(b[:8]) != string(processCookie) {
-		return "foreign"
-	}
-
-	return fmt.Sprint(int64(binary.BigEndian.Uint64(b[8:])))
+	return fmt.Sprintf("%x", c)
 }
 
 // EvStr is the canonical form of an event (same as Cosi.Driver.Watch.evStr).
@@ -276,29 +280,24 @@ type liveWatch struct {
 	agg    chan []state.Event
 }
 
-// MakeBookmark builds the bookmark bytes an op line describes.
+// MakeBookmark builds the bookmark bytes an op line describes (placeholder → real cookie).
 func MakeBookmark(ck []byte, a Args) state.Bookmark {
-	n := a.Int("bmlen")
-	b := make([]byte, 16)
-	copy(b, ck)
-
-	if a["cookie"] != "1" {
-		b[0] ^= 0xff
+	b, err := hex.DecodeString(a["bm"])
+	if err != nil {
+		panic(err)
 	}
 
-	var pos int64
-
-	fmt.Sscanf(a["pos"], "%d", &pos)
-	binary.BigEndian.PutUint64(b[8:], uint64(pos))
-
-	switch {
-	case n == 16:
-		return b
-	case n < 16:
-		return b[:n]
-	default:
-		return append(b, make([]byte, n-16)...)
+	if len(b) >= 8 && string(b[:8]) == "COOKIE!!" {
+		copy(b, ck)
+	} else if len(b) >= 8 && string(b[:8]) == string(ck) {
+		b[0] ^= 0xff // keep foreign cookies foreign
 	}
+
+	if b == nil {
+		b = []byte{}
+	}
+
+	return b
 }
 
 func startWatch(ctx context.Context, st state.CoreState, ck []byte, a Args) (*liveWatch, error) {
@@ -316,7 +315,7 @@ func startWatch(ctx context.Context, st state.CoreState, ck []byte, a Args) (*li
 			opts = append(opts, state.WithTailEvents(a.Int("tail")))
 		}
 
-		if a["bmlen"] != "" {
+		if _, ok := a["bm"]; ok {
 			opts = append(opts, state.WithStartFromBookmark(MakeBookmark(ck, a)))
 		}
 
@@ -337,7 +336,7 @@ func startWatch(ctx context.Context, st state.CoreState, ck []byte, a Args) (*li
 			opts = append(opts, state.WithKindTailEvents(a.Int("tail")))
 		}
 
-		if a["bmlen"] != "" {
+		if _, ok := a["bm"]; ok {
 			opts = append(opts, state.WithKindStartFromBookmark(MakeBookmark(ck, a)))
 		}
 
